@@ -24,15 +24,8 @@ pub struct Case {
 }
 
 fn payload(fill: u32, len: u32) -> Vec<u8> {
-    let mut x = fill | 1;
-    (0..len)
-        .map(|_| {
-            x ^= x << 13;
-            x ^= x >> 17;
-            x ^= x << 5;
-            (x >> 8) as u8
-        })
-        .collect()
+    // noise for most seeds, protocol-looking content (frame headers, token signatures, constant fills) for one in 32
+    engine::src::expand(fill | 1, len as usize)
 }
 
 enum Layer {
